@@ -263,6 +263,10 @@ def carrier_obligations(chk):
             fields = {"t": t, "origin": t, "context": rw.Ctx(path.fresh("ctx")), "var": None}
             if clsname == "CastUnmarshaller":
                 fields["caster"] = SCls(path.fresh("Caster", Cls))
+                # dispatch order (_HANDLERS): str / bytes targets go to String/BytesUnmarshaller, so a text-like Cast
+                # target is a proper subclass of its text base (an Enum mix-in); no plain carrier is an instance of it
+                for k in TEXT_CLASSES:
+                    path.assume(z3.Not(sub(cls_const(k), T)) if True else True)
             if clsname == "LiteralUnmarshaller":
                 fields["values"] = SSeq(path.fresh("nv", IntS), lambda i: SV(uw.uf("literal_value", 1)(to_val(i))), "tuple")
             if clsname.startswith("Subscripted") or clsname in ("FixedTupleUnmarshaller", "StructuredTypeUnmarshaller"):
